@@ -32,16 +32,15 @@ N2(k, d) == Add(Neg(Pow2(k)), Big(d))
 Sqrt63Lo == Mk(FALSE, <<499, 3700, 30>>)        \* 3037000499 = floor(sqrt(2^63-1))
 Sqrt63Hi == Mk(FALSE, <<500, 3700, 30>>)        \* 3037000500: square overflows
 
-GFull == << Big(0), Big(1), Big(-1), Big(2), Big(-2), Big(3), Big(-3), Big(7), Big(-7), Big(10),
-            Big(62), Big(63), Big(64), Big(65),
-            P2(21, -1), P2(21, 0), N2(21, 0), P2(21, 1),                 \* cube root of 2^63
-            P2(31, -1), P2(31, 0), P2(31, 1), N2(31, 0), N2(31, -1),
-            P2(32, -1), P2(32, 0), P2(32, 1), P2(32, 2), N2(32, 0), P2(32, 63), P2(33, 0),
-            Sqrt63Lo, Sqrt63Hi, Neg(Sqrt63Lo), Neg(Sqrt63Hi),
-            P2(62, -1), P2(62, 0), P2(62, 1), N2(62, 0), N2(62, -1),
-            MaxI64, Sub(MaxI64, Big(1)), MinI64, Add(MinI64, Big(1)), Add(MinI64, Big(2)) >>
-GQuick == << Big(0), Big(1), Big(-1), Big(2), Big(-2), Big(3), Big(-7), Big(63), Big(64),
-             P2(31, 0), P2(32, 2), Sqrt63Hi, MaxI64, MinI64, Add(MinI64, Big(1)) >>
+GFull == << Big(0), Big(1), Big(-1), Big(2), Big(-2), Big(3), Big(-3), Big(7), Big(-7), Big(63), Big(64),
+            P2(21, 0), N2(21, 0),                                        \* cube root of 2^63
+            P2(31, -1), P2(31, 0), P2(31, 1), N2(31, 0),
+            P2(32, -1), P2(32, 0), P2(32, 2), N2(32, 0), P2(32, 63),
+            Sqrt63Lo, Sqrt63Hi, Neg(Sqrt63Hi),
+            P2(62, -1), P2(62, 0), N2(62, 0),
+            MaxI64, Sub(MaxI64, Big(1)), MinI64, Add(MinI64, Big(1)) >>
+GQuick == << Big(0), Big(1), Big(-1), Big(2), Big(-2), Big(3), Big(-7), Big(64),
+             P2(31, 0), P2(32, 2), Sqrt63Hi, MaxI64, MinI64 >>
 \* the grid is computed once (when the assumptions are checked) and kept in TLC register 65: TLC would otherwise
 \* re-evaluate it at every use because it is built with RECURSIVE operators
 GReg == 65
@@ -97,7 +96,9 @@ OpName(op) == CASE op = "+" -> "add" [] op = "-" -> "sub" [] op = "*" -> "mul" [
                 [] op = "^" -> "pow" [] op = "<" -> "lt" [] op = "<=" -> "le" [] op = ">" -> "gt" [] op = ">=" -> "ge"
                 [] op = "==" -> "eq" [] op = "!=" -> "ne"
 OutKind(r) == IF r.k = "val" THEN "val" ELSE r.e
-ExpectOf(r) == IF r.k = "val" THEN [status |-> "done", host |-> << <<ToDec(r.v)>> >>]
+\* expected host-call log entry (the harness logs {f, args, tid}; ints travel as decimal strings; tid 0 = main task)
+HostCall(f, arg) == [f |-> f, args |-> <<arg>>, tid |-> 0]
+ExpectOf(r) == IF r.k = "val" THEN [status |-> "done", host |-> <<HostCall("report", ToDec(r.v))>>]
                ELSE [status |-> "error", host |-> <<>>, errkind |-> r.e]
 
 RECURSIVE Flatten(_)
@@ -125,7 +126,7 @@ CmpRecs(pid, L) ==
   Flatten([n \in 1..Len(CmpOps) |->
      LET op == CmpOps[n]
          v == CmpOp(op, L.a, L.b)
-         exp == [status |-> "done", host |-> << <<v>> >>]
+         exp == [status |-> "done", host |-> <<HostCall("reportb", v)>>]
          cat == op \o "|" \o (IF v THEN "true" ELSE "false")
          base == pid \o "." \o OpName(op) \o "."
          sfx == "_" \o pid \o "_c" \o ToString(n) \o "_"
